@@ -559,7 +559,7 @@ func (u *Universe) comp(name string) string {
 func (u *Universe) mapComps(m *types.Map) (dom, val string, ks, vs string) {
 	ks = u.sortOf(m.Key())
 	vs = u.sortOf(m.Elem())
-	dom = "MD_" + sanitize(ks)
+	dom = "MD_" + sanitize(ks) + "_" + sanitize(vs)
 	val = "MV_" + sanitize(ks) + "_" + sanitize(vs)
 	if _, ok := u.compSort[dom]; !ok {
 		u.compSort[dom] = fmt.Sprintf("(Array Int (Array %s Bool))", ks)
@@ -591,6 +591,9 @@ func (s *State) get(u *Universe, comp string) string {
 	u.comp2(comp)
 	if v, ok := s.M[comp]; ok {
 		return v
+	}
+	if sort, ok := u.compSort[comp]; ok {
+		u.declConst(comp+"_0", sort)
 	}
 	return comp + "_0"
 }
